@@ -64,6 +64,8 @@ impl SubscriptionManager {
         // completion regardless of the caller.
         let state = Arc::clone(&self.state);
         let push_registry = self.push_registry.clone();
+        #[cfg(deltio_verif)]
+        crate::verif::label(|| format!("create-sub:{}", info.name));
         tokio::spawn(async move {
             // Create the subscription and store it in state.
             let subscription = {
